@@ -2246,6 +2246,16 @@ async fn handle_packet(
         inner.created_at.elapsed().as_nanos() as u64,
         Ordering::Relaxed,
     );
+    #[cfg(rustrtc_verif)]
+    let verif_pkt = if crate::verif::enabled() {
+        Some((
+            inner.local_parameters.lock().username_fragment.clone(),
+            crate::verif::hash32(packet),
+            packet.len(),
+        ))
+    } else {
+        None
+    };
     let b = packet[0];
     if b < 2 {
         // STUN
@@ -2367,6 +2377,17 @@ async fn handle_packet(
                 *last_log = Instant::now();
             }
         }
+    }
+    // H9: the packet has been handled completely (every inline effect of the
+    // handler is visible): lets a harness decide "nothing happened" without sleeping.
+    #[cfg(rustrtc_verif)]
+    if let Some((inst, h, len)) = verif_pkt {
+        crate::verif::emit(
+            "ice",
+            &inst,
+            "pkt_done",
+            serde_json::json!({"src": addr.to_string(), "h": h, "len": len, "b0": b}),
+        );
     }
 }
 
@@ -3027,6 +3048,17 @@ async fn perform_tcp_binding_check(
                 let _ = tcp_write_all(&write, &framed).await;
             }
         }
+    }
+}
+
+/// Verification accessors (compiled only with `--cfg rustrtc_verif`).
+#[cfg(rustrtc_verif)]
+impl IceTransport {
+    /// Transaction ids of the STUN requests this agent has outstanding.
+    pub fn verif_pending_transactions(&self) -> Vec<[u8; 12]> {
+        let mut v: Vec<[u8; 12]> = self.inner.pending_transactions.lock().keys().copied().collect();
+        v.sort();
+        v
     }
 }
 
